@@ -177,6 +177,8 @@ class FaultHandlerOverrideTlv(AbstractTlvBase):
         tlv = CfdpTlv.unpack(data=data)
         if tlv.tlv_type != cls.TLV_TYPE:
             raise TlvTypeMissmatch(tlv.tlv_type, cls.TLV_TYPE)
+        if len(tlv.value) < 1:
+            raise BytesTooShortError(1, 0)
         fault_handler_ovr_tlv = cls.__empty()
         fault_handler_ovr_tlv.tlv = tlv
         fault_handler_ovr_tlv.condition_code = (
@@ -189,6 +191,8 @@ class FaultHandlerOverrideTlv(AbstractTlvBase):
     def from_tlv(cls, cfdp_tlv: CfdpTlv) -> FaultHandlerOverrideTlv:
         if cfdp_tlv.tlv_type != cls.TLV_TYPE:
             raise TlvTypeMissmatch(cfdp_tlv.tlv_type, cls.TLV_TYPE)
+        if len(cfdp_tlv.value) < 1:
+            raise BytesTooShortError(1, 0)
         fault_handler_tlv = cls.__empty()
         fault_handler_tlv.tlv = cfdp_tlv
         fault_handler_tlv.condition_code = (cfdp_tlv.value[0] >> 4) & 0x0F
